@@ -411,7 +411,9 @@ static void target(const uint8_t *in, size_t len)
 		sm3_hmac_init(&hm, key, 16); sm4_set_encrypt_key(&ek, key); sm4_set_decrypt_key(&dk, key);
 		uint8_t *pt; size_t ptlen;
 		if (sel & 2) {
-			size_t padn = len ? (size_t)in[len - 1] % 64 : 0, content = len > padn ? len - padn : 0, i;
+			size_t padn = len ? (size_t)in[len - 1] % 64 : 0, content, i;
+			if (padn > len) padn = len;
+			content = len - padn;
 			if (content > 16384) content = 16384;
 			ptlen = content + 32 + padn; ptlen += (16 - ptlen % 16) % 16;
 			pt = malloc(ptlen); memcpy(pt, in, content);
